@@ -735,6 +735,42 @@ theorem raise_copies_conservative (ops : List (XOp α)) (f : Nat) (hops : ∀ op
     srun f (SSt.empty : SSt α) ops = xspecRun [] ops := by
   rw [← raise_history_with_copies ops f hterm]; exact raise_history ops f hops hterm
 
+/-- **C03.11i (an exception of a shared sequence is delivered once; items to everybody)** a reader `pos` items
+behind the start of a shared sequence whose source is a list of events `L` (nothing shared below it; `buf`:
+the items delivered so far) has `viewOf L buf pos` in front of it — the stored items it has not read, then
+`L`.  `next` on it delivers the head of that view (StopIteration for the empty one) and leaves the tail.
+When it is an item (or StopIteration) the view of EVERY reader `q` of that sequence is unchanged — copies
+are independent, whatever the order of consumption.  An exception can only be met at the front
+(`pos = buf.length`); it is removed from the shared list and nothing is stored: the view of every other
+reader, `viewOf (error e :: L') buf q`, becomes `viewOf L' buf q` — its old view with that one event
+erased. -/
+theorem raise_shared_once (f : Nat) {H : SHeap α} {k : Nat} {L : List (Ev α)} {buf : List α} {pos : Nat}
+    (hk : H[k]? = some ⟨.evs L, buf⟩) (hp : pos ≤ buf.length) :
+    ∃ (L' : List (Ev α)) (buf' : List α) (pos' : Nat) (r : Res α),
+      snext (f + 2) H (.view k pos) = some (H.set k ⟨.evs L', buf'⟩, .view k pos', r) ∧ pos' ≤ buf'.length ∧
+      (match r with
+        | .stop => viewOf L buf pos = [] ∧ viewOf L' buf' pos' = [] ∧
+            ∀ q, q ≤ buf.length → viewOf L' buf' q = viewOf L buf q
+        | .item v => viewOf L buf pos = .ok v :: viewOf L' buf' pos' ∧
+            ∀ q, q ≤ buf.length → viewOf L' buf' q = viewOf L buf q
+        | .raise e => viewOf L buf pos = .error e :: viewOf L' buf' pos' ∧
+            pos = buf.length ∧ buf' = buf ∧ L = .error e :: L') := by
+  obtain ⟨L', buf', pos', r, h1, h2, h3, h4⟩ := shared_next f hk hp
+  refine ⟨L', buf', pos', r, h1, h2, ?_⟩
+  cases r with
+  | stop => exact ⟨h3.1, h3.2, h4⟩
+  | item v => exact ⟨h3, h4⟩
+  | raise e => exact ⟨h3, h4⟩
+
+/-- non-vacuity of C03.11i: two readers of one shared sequence `[1, KeyError, 3]`, one item delivered:
+    the reader at the front gets the exception, the one behind never sees it -/
+example :
+    let H : SHeap Int := [⟨.evs [.error "KeyError", .ok 3], [1]⟩]
+    H[0]? = some ⟨.evs [.error "KeyError", .ok 3], [1]⟩ ∧ (1 : Nat) ≤ [1].length ∧
+    snext 2 H (.view 0 1) = some ([⟨.evs [.ok 3], [1]⟩], .view 0 1, .raise "KeyError") ∧
+    viewOf [.error "KeyError", .ok 3] [(1 : Int)] 0 = [.ok 1, .error "KeyError", .ok 3] ∧
+    viewOf [.ok 3] [(1 : Int)] 0 = [.ok 1, .ok 3] := ⟨rfl, by decide, rfl, rfl, rfl⟩
+
 /-- non-vacuity: `map` goes on after the exception, `take(5)` raises and the Stream goes on behind the
     raising position; `limit` and `skip` are finished by it; `s.attr` goes on -/
 example :
@@ -761,6 +797,21 @@ example :
        .drain 1]
     = [some (.new 0), some .unit, some (.new 1), some (.err "ValueError"), some (.items [10, 20]), some (.item 40),
        some (.items [10, 20, 40, 50])] := by decide +kernel
+/-- non-vacuity of C03.11f: the same history on the specification with copies; and a `limit` over a copy is
+    finished by the exception it is handed, while the other copy goes on -/
+example :
+    let boom : Int → Ev Int := fun x => if x = 3 then .error "ValueError" else .ok (x * 10)
+    let ops : List (XOp Int) :=
+      [.new [.ok 1, .ok 2, .ok 3, .ok 4, .ok 5], .map 0 boom, .copy 0, .peek 0 (.int 5), .take 0 (.int 2), .next 0,
+       .drain 1,
+       .new [.ok 1, .error "KeyError", .ok 3, .ok 4], .copy 2, .limit 2 3, .take 2 (.int 3), .drain 2, .drain 3]
+    let obs : List (Option (Obs Int)) :=
+      [some (.new 0), some .unit, some (.new 1), some (.err "ValueError"), some (.items [10, 20]), some (.item 40),
+       some (.items [10, 20, 40, 50]),
+       some (.new 2), some (.new 3), some .unit, some (.err "KeyError"), some (.items []), some (.items [1, 3, 4])]
+    xrun 9 (XSt.empty : XSt Int) ops = obs ∧ srun 9 (SSt.empty : SSt Int) ops = obs ∧
+      (∀ o, o ∈ xrun 9 (XSt.empty : XSt Int) ops → o ≠ none) := by
+  refine ⟨by decide +kernel, by decide +kernel, by decide +kernel⟩
 
 end ALV.Props.C03
 
